@@ -420,6 +420,13 @@ def cut_binders(ir):
                 n = out["elems"][i][j]
                 if n is not None and ir["nodes"][n]["op"] not in ("const", "input") and n not in cutmap:
                     cutmap[n] = nm
+                    # CasADi hoists negations ((-x)*y -> -(x*y)), so consumers may use the operand of a
+                    # negated cut output directly: x = -(-x) exactly, in floats and in ℝ
+                    nd = ir["nodes"][n]
+                    if nd["op"] == "neg":
+                        a = nd["args"][0]
+                        if ir["nodes"][a]["op"] not in ("const", "input") and a not in cutmap:
+                            cutmap[a] = "(CasNum.neg %s)" % nm
     return cutmap, "(%s : α)" % " ".join(names)
 
 
@@ -560,6 +567,9 @@ def emit_wrappers(ir) -> str:
             L.append("@[cas_defs] def %s_mat {α : Type} [CasNum α] %s : Matrix (Fin %d) (Fin %d) α :=\n  !![%s]" % (
                 nm, b, r, c, rows))
     if ir.get("cuts"):
+        cutmap, _ = cut_binders(ir)
+        negs = any(v.startswith("(CasNum.neg") for v in cutmap.values())
+        breal = " ".join("(%s : %s)" % (i["name"], arg_type(i["shape"]).replace("α", "ℝ")) for i in ir["inputs"])
         for out in ir["outputs"]:
             if out["name"] in ir["cuts"]:
                 continue
@@ -567,9 +577,14 @@ def emit_wrappers(ir) -> str:
             for j in range(c):
                 for i in range(r):
                     en = elem_name(out, i, j)
-                    L.append("/-- peeling: `%s` is its cut version applied to the cut outputs (definitional) -/" % en)
-                    L.append("theorem %s_cut_eq {α : Type} [CasNum α] %s :\n    %s %s = %s_cut %s %s := rfl" % (
-                        en, b, en, a, en, a, cut_args(ir)))
+                    if not negs:
+                        L.append("/-- peeling: `%s` is its cut version applied to the cut outputs (definitional) -/" % en)
+                        L.append("theorem %s_cut_eq {α : Type} [CasNum α] %s :\n    %s %s = %s_cut %s %s := rfl" % (
+                            en, b, en, a, en, a, cut_args(ir)))
+                    else:
+                        L.append("/-- peeling over ℝ: `%s` is its cut version applied to the cut outputs (a consumer uses the operand\n    of a negated cut output, so the identity needs -(-x) = x) -/" % en)
+                        L.append("theorem %s_cut_eq %s :\n    %s %s = %s_cut %s %s := by\n  simp only [cas_defs, CasReal.neg_eq, neg_neg]" % (
+                            en, breal, en, a, en, a, cut_args(ir)))
     L.append("end %s" % ns)
     return "\n".join(L) + "\n"
 
